@@ -1,8 +1,8 @@
 CONSTANTS
   Shapes <- MCShapes
-  Streams <- MCAll
+  Streams <- MCTiny
   MaxChunk = 100
-  D = 4
+  D = 3
 INIT Init
 NEXT Next
 CONSTRAINT Bound
